@@ -87,9 +87,10 @@ macro_rules! drive {
     };
     let script = script_of(c);
     let term_pos = c.steps.iter().position(|s| matches!(s, Step::Ev(n) if n.is_terminal()));
-    let cw = Arc::new(CountWaker(AtomicUsize::new(0)));
-    let w = waker(cw.clone());
-    let mut cx = Context::from_waker(&w);
+    // every poll uses a waker of its own (a future that moves between tasks is polled with
+    // different wakers); the one handed over by the most recent pending poll is the one owed a wake-up
+    let wakers: std::rc::Rc<std::cell::RefCell<Vec<Arc<CountWaker>>>> = Default::default();
+    let woken_total = |ws: &std::rc::Rc<std::cell::RefCell<Vec<Arc<CountWaker>>>>| -> usize { ws.borrow().last().map_or(0, |w| w.0.load(Ordering::SeqCst)) };
     let mut polls: Vec<(usize, String)> = vec![];
     let mut violation: Option<(String, String)> = None;
     let mut pending_before_terminal = false;
@@ -105,6 +106,10 @@ macro_rules! drive {
           if resolved.is_some() {
             return resolved.clone().unwrap();
           }
+          let cwn = Arc::new(CountWaker(AtomicUsize::new(0)));
+          let w = waker(cwn.clone());
+          let mut cx = Context::from_waker(&w);
+          wakers.borrow_mut().push(cwn);
           let r = match Future::poll(fut.as_mut(), &mut cx) {
             Poll::Pending => FOut::Pending,
             Poll::Ready(Ok(Ok(v))) => FOut::Value(v),
@@ -128,7 +133,7 @@ macro_rules! drive {
                 if !terminated {
                   pending_before_terminal = true;
                   last_pending = true;
-                  wakes_at_pending = cw.0.load(Ordering::SeqCst);
+                  wakes_at_pending = woken_total(&wakers);
                 }
               } else if !terminated {
                 violation = Some(("resolved_before_terminal".into(), format!("poll at step {} returned {:?} before the source terminated", i, r)));
@@ -138,7 +143,7 @@ macro_rules! drive {
         }
         if terminal.is_some() && violation.is_none() {
           // a poll that returned Pending before the terminal must have been woken by it
-          if last_pending && resolved.is_none() && cw.0.load(Ordering::SeqCst) == wakes_at_pending {
+          if last_pending && resolved.is_none() && woken_total(&wakers) == wakes_at_pending {
             violation = Some(("lost_wakeup".into(), "the future was pending, the source terminated, and the registered waker was never woken".into()));
           }
           // ready within two polls after termination
@@ -172,6 +177,10 @@ macro_rules! drive {
           if *ended {
             return true;
           }
+          let cwn = Arc::new(CountWaker(AtomicUsize::new(0)));
+          let w = waker(cwn.clone());
+          let mut cx = Context::from_waker(&w);
+          wakers.borrow_mut().push(cwn);
           match Stream::poll_next(st.as_mut(), &mut cx) {
             Poll::Pending => {
               polls.push((i, "Pending".into()));
@@ -202,7 +211,7 @@ macro_rules! drive {
               let ready = poll_one(i, &mut st, &mut got, &mut ended, &mut polls);
               if !ready {
                 pending_before_terminal = term_pos.map_or(true, |t| t > i) || pending_before_terminal;
-                last_pending_wakes = Some(cw.0.load(Ordering::SeqCst));
+                last_pending_wakes = Some(woken_total(&wakers));
               } else {
                 last_pending_wakes = None;
               }
@@ -211,7 +220,7 @@ macro_rules! drive {
         }
         if terminal.is_some() {
           if let Some(wk) = last_pending_wakes {
-            if cw.0.load(Ordering::SeqCst) == wk && got.len() < script.len() {
+            if woken_total(&wakers) == wk && got.len() < script.len() {
               violation = Some(("lost_wakeup".into(), "the stream was pending, more notifications arrived, and the waker was never woken".into()));
             }
           }
@@ -490,6 +499,38 @@ pub fn run(cfg: &Cfg, rep: &mut Report) {
     }
   }
 
+  // complete_status ABOVE an early terminator, over a `create` source (which delivers its
+  // terminal through its shared subscriber even when everything below has finished)
+  if cfg.only_case.is_none() || cfg.only_case.as_deref().map_or(false, |c| c.starts_with("above")) {
+    let mut idx = 0usize;
+    for threads in [false, true] {
+      for below in 0..3u8 {
+        for items in 0..4usize {
+          for terminal in 0..3u8 {
+            idx += 1;
+            if !cfg.mine(idx) {
+              continue;
+            }
+            let id = format!("above:{}", idx);
+            if !cfg.wants(&id) {
+              continue;
+            }
+            rep.evaluations += 1;
+            rep.count("status_above_an_early_terminator_cases", 1);
+            rep.events += items as u64 + 1;
+            if items >= 1 && terminal > 0 {
+              rep.nontrivial.insert(hash64(&("above", threads, below, items, terminal)));
+            }
+            let term_name = ["none", "complete", "error"][terminal as usize];
+            if let Some(why) = status_above(threads, below, items, terminal) {
+              rep.violation("wrong_status", &format!("complete_status[above {}]", ["take(0)", "take(1)", "take(2)"][below as usize]), &id, json!({"threads_form": threads, "items": items, "terminal": term_name, "why": why}));
+            }
+          }
+        }
+      }
+    }
+  }
+
   // two-thread free-running part: a real waiter thread blocks on the future /
   // stream / status while the producer thread emits (true parallelism, seeded jitter)
   if cfg.only_case.is_none() || cfg.only_case.as_deref().map_or(false, |c| c.starts_with("race")) {
@@ -664,5 +705,65 @@ fn race_case(r: &mut Rng) -> Option<(String, String, serde_json::Value, bool)> {
         Some(("wrong_outcome".into(), locus, json!({"observed": res, "expected_one_of": want}), false))
       }
     }
+  }
+}
+
+macro_rules! status_above_drive {
+  ($subscriber:ident, $cell:expr, $below:expr, $items:expr, $terminal:expr) => {{
+    let cell = $cell;
+    let c2 = cell.clone();
+    let src = create(move |s: $subscriber<_>| {
+      *c2.lock().unwrap() = Some(s);
+    });
+    let (o, status) = src.complete_status();
+    let log = Log::new();
+    // take(0) is finished from the start, take(1) after the first item, take(2) after the second
+    o.take($below as usize).actual_subscribe(Probe::new(1, &log));
+    let mut why = None;
+    let mut s = cell.lock().unwrap().take().expect("create handed over its subscriber");
+    for i in 0..$items {
+      s.next(V::I(10 + i as i64));
+      if status.is_closed() && why.is_none() {
+        why = Some(format!("is_closed() became true after item {} although the source has not terminated", i));
+      }
+    }
+    match $terminal {
+      1 => s.clone().complete(),
+      2 => s.clone().error(7),
+      _ => {}
+    }
+    let want = match $terminal {
+      1 => (true, true, false),
+      2 => (true, false, true),
+      _ => (false, false, false),
+    };
+    let got = (status.is_closed(), status.is_completed(), status.error_occur());
+    if got != want && why.is_none() {
+      why = Some(format!("after the source's terminal call returned: is_closed={} is_completed={} error_occur={}, expected {:?}", got.0, got.1, got.2, want));
+    }
+    if why.is_none() && $terminal > 0 {
+      CompleteStatus::wait_for_end(status.clone());
+    }
+    why
+  }};
+}
+
+/// Some(why) when the status above take(1)/first()/take_while disagrees with what the source did
+fn status_above(threads: bool, below: u8, items: usize, terminal: u8) -> Option<String> {
+  use std::sync::Mutex;
+  let r = catch(|| {
+    if threads {
+      let cell: Arc<Mutex<Option<SubscriberThreads<_>>>> = Arc::new(Mutex::new(None));
+      status_above_drive!(SubscriberThreads, cell, below, items, terminal)
+    } else {
+      // (the local subscriber is not Send; a Mutex in an Arc is just a cell here)
+      #[allow(clippy::arc_with_non_send_sync)]
+      let cell: Arc<Mutex<Option<Subscriber<_>>>> = Arc::new(Mutex::new(None));
+      status_above_drive!(Subscriber, cell, below, items, terminal)
+    }
+  });
+  match r {
+    Ok(w) => w,
+    Err(p) => Some(format!("panic: {}", p)),
   }
 }
